@@ -252,7 +252,9 @@ func c17GenGraph(r *rng) (src string, ids []int, named map[string][]int) {
 		case 1:
 			fmt.Fprintf(&b, "!%d = %s!{!%d}\n", id, dist, id) // self reference
 		case 2:
-			fmt.Fprintf(&b, "!%d = %s!{!{%s}, !{!{%s}}}\n", id, dist, ref(), ref()) // inline nodes
+			// inline nodes: tuples and specialised nodes written in place
+			inl := []string{"!DISubrange(count: 3)", "!DIEnumerator(name: \"e\", value: 1)", "!DIExpression(DW_OP_deref)", "!DIBasicType(name: \"int\", size: 32)", "!DISubroutineType(types: null)", "!DILocation(line: 1, column: 2, scope: " + fmt.Sprintf("!%d", scopes[r.intn(len(scopes))]) + ")"}
+			fmt.Fprintf(&b, "!%d = %s!{!{%s}, !{!{%s}}, %s, %s}\n", id, dist, ref(), ref(), inl[r.intn(len(inl))], inl[r.intn(len(inl))])
 		case 3:
 			fmt.Fprintf(&b, "!%d = %s!DIFile(filename: \"a.c\", directory: \"/\")\n", id, dist)
 		case 4:
